@@ -1,1 +1,102 @@
-fn main() { println!("{}", sc62015_core::INTERNAL_MEMORY_START); }
+//! `vh` -- verification harness binary: JSON-lines server exposing the Rust crate's public API.
+//!
+//! One request per line on stdin, one response per line on stdout.  `cmd` is "<module>.<verb>";
+//! each property family owns one module file so they can evolve independently.  The harness holds no
+//! semantics of its own beyond the hash-filled sparse bus (cpu.rs) and scripted tasks (c18.rs).
+use serde_json::{json, Value};
+use std::io::{BufRead, Write};
+
+mod util;
+mod cpu;
+mod c08;
+mod c11;
+mod c13;
+mod c14;
+mod c15;
+mod c17;
+mod c18;
+mod machine;
+
+pub struct Sessions {
+    pub cpu: cpu::CpuSessions,
+    pub c08: c08::State,
+    pub c11: c11::State,
+    pub c13: c13::State,
+    pub c14: c14::State,
+    pub c15: c15::State,
+    pub c18: c18::State,
+    pub machine: machine::State,
+}
+
+fn dispatch(sess: &mut Sessions, req: &Value) -> Value {
+    let cmd = req.get("cmd").and_then(|v| v.as_str()).unwrap_or("");
+    let (module, verb) = match cmd.split_once('.') {
+        Some(p) => p,
+        None => (cmd, ""),
+    };
+    match module {
+        "ping" => json!({"ok": true, "pong": true}),
+        "util" => util::handle(verb, req),
+        "cpu" => cpu::handle(verb, req, &mut sess.cpu),
+        "c08" => c08::handle(verb, req, &mut sess.c08),
+        "c11" => c11::handle(verb, req, &mut sess.c11),
+        "c13" => c13::handle(verb, req, &mut sess.c13),
+        "c14" => c14::handle(verb, req, &mut sess.c14),
+        "c15" => c15::handle(verb, req, &mut sess.c15),
+        "c17" => c17::handle(verb, req),
+        "c18" => c18::handle(verb, req, &mut sess.c18),
+        "machine" => machine::handle(verb, req, &mut sess.machine),
+        _ => json!({"ok": false, "error": format!("unknown cmd {cmd}")}),
+    }
+}
+
+fn main() {
+    // Panics inside the code under test are reported as {"ok":false,"panic":...}, not as a dead harness.
+    std::panic::set_hook(Box::new(|_| {}));
+    let mut sess = Sessions {
+        cpu: Default::default(),
+        c08: Default::default(),
+        c11: Default::default(),
+        c13: Default::default(),
+        c14: Default::default(),
+        c15: Default::default(),
+        c18: Default::default(),
+        machine: Default::default(),
+    };
+    let stdin = std::io::stdin();
+    let stdout = std::io::stdout();
+    let mut out = std::io::BufWriter::new(stdout.lock());
+    for line in stdin.lock().lines() {
+        let line = match line {
+            Ok(l) => l,
+            Err(_) => break,
+        };
+        if line.trim().is_empty() {
+            continue;
+        }
+        let resp = match serde_json::from_str::<Value>(&line) {
+            Ok(req) => {
+                let r = std::panic::catch_unwind(std::panic::AssertUnwindSafe(|| {
+                    dispatch(&mut sess, &req)
+                }));
+                match r {
+                    Ok(v) => v,
+                    Err(e) => {
+                        let msg = if let Some(s) = e.downcast_ref::<&str>() {
+                            s.to_string()
+                        } else if let Some(s) = e.downcast_ref::<String>() {
+                            s.clone()
+                        } else {
+                            "panic".to_string()
+                        };
+                        json!({"ok": false, "panic": msg})
+                    }
+                }
+            }
+            Err(e) => json!({"ok": false, "error": format!("bad json: {e}")}),
+        };
+        let _ = serde_json::to_writer(&mut out, &resp);
+        let _ = out.write_all(b"\n");
+        let _ = out.flush();
+    }
+}
